@@ -140,6 +140,7 @@ def World.copyObj (w : World) : Nat → Nat → Lookup → World × Nat × Looku
         let (w, lk) := acc
         let key := w.eqKey n
         let (w, cp, lk) := w.copyObj f n lk
+        let w := if lk.any (fun p => p.1 == key) then { w with collisions := w.collisions + 1 } else w
         let lk := lk.set key cp
         (w.add res cp, lk)
       let (w, lk) := (listing op.graph).foldl step (w, lk)
